@@ -1502,7 +1502,7 @@ def _undecided_or_deferred(ctx: Ctx, rule: str, msg: str) -> None:
         ctx.R.undecided(rule, msg)
 
 
-def opc12_block_walk_table(ctx: Ctx) -> None:
+def _opc12_block_walk_table(ctx: Ctx) -> None:
     """OPC-12 the control-flow walk that finds the handler of a POP_BLOCK (CPython 3.9 / 3.10; never entered by the 3.12 suite) as a
     table.  One iteration of `while todo:` is evaluated under every assignment of the conditions it tests (already visited /
     absolute jump / relative jump / SETUP_* / POP_BLOCK / the POP_BLOCK looked for / unconditional transfer); its effects are
@@ -2569,7 +2569,7 @@ def opc6_exit_templates(ctx: Ctx) -> None:
 
 
 # --------------------------------------------------------------------- OPC-8 jump arithmetic of the 3.9/3.10 block-stack walk
-def opc8_jump_arithmetic(ctx: Ctx) -> None:
+def _opc8_jump_arithmetic(ctx: Ctx) -> None:
     """OPC-8 in the control-flow walk of currently_exiting_context (CPython < 3.11): a relative jump / SETUP_* target and the
     fall-through successor are computed from the position of the decoded instruction itself (after its EXTENDED_ARG
     prefixes), absolute jumps from the argument alone, and both are scaled by the same unit factor"""
@@ -2637,3 +2637,34 @@ def opc8_jump_arithmetic(ctx: Ctx) -> None:
         ctx.R.ok("OPC-8", f"absolute target {A} * jmul")
     if n < 3:
         _undecided_or_deferred(ctx, "OPC-8", f"only {n} jump-target expressions recognised in the walk")
+
+
+def _table_rule_vs_sites(ctx: Ctx, rule: str, inner) -> None:
+    """run a table / shape rule about the 3.9 / 3.10 walk; if it reports, but the whole function evaluated on every observed exit
+    site of those interpreters (OPC-16: 35 shapes per interpreter, among them bodies long enough for EXTENDED_ARG on relative and
+    absolute jumps and on SETUP_*) resolves each site to its handler, the table reading and the evaluation disagree: the rule is
+    then undecided, not a violation (the evaluation is the stronger reading; a real arithmetic slip loses sites, see the
+    round-8 seed C20h-fetch-helper-prefix-offset)"""
+    n0 = len(ctx.R.findings)
+    inner(ctx)
+    mine = [f for f in ctx.R.findings[n0:] if f.rule == rule]
+    # only readings of the jump arithmetic are put to the sites; bookkeeping rows (visited set, POP_BLOCK) are not: an unmarked
+    # visited set, say, costs termination on cyclic code, which no finite set of sites shows
+    if mine and all(any(w_ in f.construct for w_ in ("JABS", "JREL", "target")) and not any(w_ in f.construct for w_ in ("SEEN", "POPB", "UNCOND")) for f in mine) and _walk_covered_by_sites(ctx) is not None:
+        for f in mine:
+            ctx.R.findings.remove(f)
+        ctx.R.obligations[:] = [o for o in ctx.R.obligations if not (o.get("rule") == rule and o.get("ok") is False)]
+        ctx.R.counts[rule] = max(0, ctx.R.counts.get(rule, 0) - len(mine))
+        ctx.R.undecided(rule, f"the rule reads `{mine[0].construct[:80]}` as a violation, but currently_exiting_context evaluated on all {_walk_covered_by_sites(ctx)} observed 3.9 / 3.10 exit sites resolves every one (OPC-16)")
+
+
+def opc12_block_walk_table(ctx: Ctx) -> None:
+    _table_rule_vs_sites(ctx, "OPC-12", _opc12_block_walk_table)
+
+
+def opc8_jump_arithmetic(ctx: Ctx) -> None:
+    _table_rule_vs_sites(ctx, "OPC-8", _opc8_jump_arithmetic)
+
+
+opc12_block_walk_table.__doc__ = _opc12_block_walk_table.__doc__
+opc8_jump_arithmetic.__doc__ = _opc8_jump_arithmetic.__doc__
